@@ -1,7 +1,102 @@
 import Driver.Wire
-/-! Driver commands of the Policy area (filled in by the area's owner). -/
+import Driver.Gc
+import Marwood.Spec.HeapPolicy
+import Marwood.Spec.Plain
+/-! Driver commands of the Policy area (C12): collection-point traces through `Spec.HeapPolicy`, the
+T12.3 bound on measured premises, and the C03 snapshots through the collector model / `Spec.Reach` with the
+kind discipline `Plain`. Wire format: harness/src/bin/policy.rs. -/
 namespace Marwood.Driver.Policy
+open Marwood Marwood.Heap Marwood.Spec Marwood.Spec.HeapPolicy
 
-def handle (_cmd : String) (_args : List String) : Option String := none
+/-- run-length encoding of a token sequence: `tok` or `tok*count` (same as `rle` in policy.rs) -/
+def rle (toks : List String) : String :=
+  let rec go (cur : String) (cnt : Nat) (acc : Array String) : List String → Array String
+    | [] => acc.push (if cnt == 1 then cur else s!"{cur}*{cnt}")
+    | t :: ts =>
+      if t == cur then go cur (cnt + 1) acc ts
+      else go t 1 (acc.push (if cnt == 1 then cur else s!"{cur}*{cnt}")) ts
+  match toks with
+  | [] => "-"
+  | t :: ts => " ".intercalate (go t 1 #[] ts).toList
+
+def nats (args : List String) : Option (List Nat) := args.mapM String.toNat?
+
+/-- a trace never contains more allocations between two points than this (the harness encodes an
+impossible negative difference as `usize::MAX`) -/
+def maxAllocs : Nat := 100000000
+
+/-- `policy-trace <label> <chunk> <cap0> <used0> <n> (<k> <live>)*n <k-end>` -/
+def trace (args : List String) : Option String := do
+  let _label :: rest := args | none
+  let chunk :: cap0 :: used0 :: n :: rest ← nats rest | none
+  if rest.length ≠ 2 * n + 1 then none
+  let mut s : PState := ⟨chunk, cap0, used0⟩
+  let mut out : Array String := #[]
+  let mut xs := rest
+  for _ in [0:n] do
+    match xs with
+    | k :: live :: tl =>
+      if k > maxAllocs then none
+      s := allocN k s
+      let capBefore := s.capacity
+      let coll := collects false s
+      s := gcPoint false live s
+      out := out.push s!"{capBefore}:{if coll then 1 else 0}:{s.used}:{s.capacity}"
+      xs := tl
+    | _ => none
+  match xs with
+  | [kEnd] =>
+    if kEnd > maxAllocs then none
+    s := allocN kEnd s
+    some s!"ok {rle out.toList} | end {s.capacity} {s.used}"
+  | _ => none
+
+/-- `policy-bound <label> <chunk> <cap0> <used0> <A> <L> <maxcap>`: the hypotheses of
+`capacity_bounded` on the measured numbers, then `maxcap ≤ bound` -/
+def boundCmd (args : List String) : Option String := do
+  let _label :: rest := args | none
+  let [chunk, cap0, used0, a, l, maxcap] ← nats rest | none
+  if chunk = 0 || cap0 % chunk ≠ 0 then some "hyp-fail shape"
+  else if !(used0 ≤ l || 4 * used0 < 3 * cap0) then some "hyp-fail initial"
+  else
+    let b := bound chunk cap0 a l
+    if maxcap ≤ b then some "ok within" else some s!"ok exceeds {b}"
+
+def allocated (h : Heap) : List Nat :=
+  (List.range h.cells.size).filter fun i => h.gc[i]? != some GcState.free
+
+/-- `policy-collect <heap> <roots>`: the collector model (repaired marker, forced) on a real snapshot;
+also checks the kind discipline under which `allocated_after_gc_iff_live` speaks about semantic references -/
+def collect (args : List String) : Option String := do
+  let (h, r) ← Gc.runP (do
+    let h ← Gc.heap
+    let r ← Gc.roots
+    pure (h, r)) args
+  let plain := if !plainHeap h then "notplain-heap" else if !plainRoots r then "notplain-roots" else "plain"
+  match Heap.runGc true true h r with
+  | .error e => some s!"panic {e}"
+  | .ok .fuelExhausted => some "fuel"
+  | .ok (.skipped _) => some "skipped"
+  | .ok (.collected h') => some s!"ok c{h'.cells.size} a{Gc.ranges (allocated h')} {plain}"
+
+/-- `policy-live <heap> <roots>`: the specification — cells reachable through semantic references -/
+def live (args : List String) : Option String := do
+  let (h, r) ← Gc.runP (do
+    let h ← Gc.heap
+    let r ← Gc.roots
+    pure (h, r)) args
+  match liveArr h r with
+  | none => some "fuel"
+  | some a =>
+    let l := (List.range a.size).filter fun i => a[i]? == some true
+    some s!"ok a{Gc.ranges l}"
+
+def handle (cmd : String) (args : List String) : Option String :=
+  match cmd with
+  | "policy-trace" => trace args
+  | "policy-bound" => boundCmd args
+  | "policy-collect" => collect args
+  | "policy-live" => live args
+  | _ => none
 
 end Marwood.Driver.Policy
